@@ -74,9 +74,9 @@ register("C09", "proof",
 register("C01", "other",
          "Partial. (1) Proved in Lean over tables regenerated from utils.py on every run: the branch emitted for every comparison operator is taken exactly when the source condition is false, the set instruction "
          "computes the comparison, the two suffix tables negate each other (branch_neg_correct, cmp_set_correct, negated_table_negates). (2) Proved for a core sub-language (ALU operations, device reads/writes, "
-         "yield/sleep, if/else, while on a comparison, while True, break, continue): the model code generator comp is correct on the IC10 machine for every program, value semantics, device environment and fuel "
+         "yield/sleep, if/else on comparisons and truth tests, while on a comparison, while True, break, continue): the model code generator comp is correct on the IC10 machine for every program, value semantics, device environment and fuel "
          "(PV.Core.sim, compile_correct_done, compile_correct_running; hypothesis NegOk discharged for the real suffix tables by negOk_of_real_tables). Tie of (2) to the code: for generated core programs the "
-         "captured pre-allocation code of the REAL transpiler must equal comp (flatten src) instruction for instruction (stream incore, 82-89 % of that profile inside the core, all of them equal on the clean tree); "
+         "captured pre-allocation code of the REAL transpiler must equal comp (flatten src) instruction for instruction (stream incore, 88-90 % of that profile inside the core, all of them equal on the clean tree); "
          "flatten (unproved, executable) is compared with the reference semantics per program. (3) Beyond the core the whole-program statement is explored by an executable oracle — the reference semantics of the "
          "dialect (PV.Src) and the IC10 machine (PV.IC10), hand-written Lean specifications compiled into pvdrv, run each generated source program and the real emitted code against the same pseudo-random device "
          "environments and compare effect traces (prefix rule for endless programs). Streams: core, functions, call-heavy, incore; behaviour-neutral options randomised; witnesses of known findings F-C01-a/c/f "
@@ -91,7 +91,9 @@ register("C05", "proof",
          "is line for line the instruction list with label operands replaced by those indices and all other tokens untouched (specRemove_eq_map, substTok_label, substTok_other, substInstr_head), unrelated label "
          "lines do not move any target (labelIndex_erase_other) — for all programs. Machine level: label_removal_preserves_traces (stuttering bisimulation strip_sim_fwd / strip_sim_bwd) — a program of direct "
          "control flow and the program with its label lines deleted and jump targets renumbered have the same effect traces for every environment, start state and number of steps; per real output pair the "
-         "harness checks that the label-free output is exactly that strip of the labelled one (strip-compare; pairs with jal / relative branches are outside the theorem and counted separately). Tie to the code: on every run the REAL output with remove_labels=True is compared line for line with specRemove of the REAL "
+         "harness checks that the label-free output is exactly that strip of the labelled one (strip-compare). Programs with calls: label_removal_preserves_traces_typed (strip_sim_typed, exec_rel over all 20 "
+         "instruction kinds) — if on a run of the labelled program no line number is ever used as a value (typing tyRun: jal marks ra, push/pop/put/get move the mark, j r needs a marked r), the label-free program "
+         "reaches the same effect trace; strip-run evaluates that hypothesis on one run per real pair. Tie to the code: on every run the REAL output with remove_labels=True is compared line for line with specRemove of the REAL "
          "output with labels kept (other options equal, random) for shipped, generated (core/funcs/calls/loop-control) and identifier-adversarial programs; labels defined once; every jump operand resolves in "
          "both outputs (loader model); behaviour under both settings is compared with the reference semantics. Name collisions after mangling are known findings F-C05-a/b/c (witnesses).",
          TB + "specRemove is a hand-written specification; the regex substitution inside remove_labels is covered by output comparison, not by a theorem about the regex engine.",
